@@ -155,7 +155,7 @@ func genRequest(t *rapid.T, mode string, depth, batch int) genReq {
 		}
 	case kind == 12: // over-long bodies
 		m := genValidParams(t, mode, depth, batch)
-		n := pick(t, "padlen", 1<<20, 2<<20, 4<<20)
+		n := pick(t, "padlen", 1<<20, 2<<20, 4<<20, 4<<20, 8<<20, 16<<20)
 		if rapid.Bool().Draw(t, "ws") {
 			return genReq{Method: "POST", Body: m.writeDoc(styleHexLower), PadLen: n, PadAt: "whitespace-prefix", Class: "overlong:whitespace", Expect: "valid", Hash: m.InputHash}
 		}
